@@ -1,7 +1,15 @@
 package checks
 
 import (
+	"encoding/json"
+
 	"github.com/ansible/receptor/pkg/logger"
+	"verif/sim/simnet"
 )
 
 func quiet() { logger.SetGlobalQuietMode() }
+
+func routeMsg(ru *simnet.RoutingUpdate) []byte {
+	b, _ := json.Marshal(ru)
+	return append([]byte{simnet.MsgRoute}, b...)
+}
